@@ -1597,6 +1597,11 @@ callf:
 			top := env.Runtime.Stack.Top()
 			top.HeightLogical += r.tailRecElided()
 			top.TailIterations++
+			// The frame is reused for the next iteration: it is no longer in its
+			// terminal state until call() reaches the last body form again.  A
+			// stale flag would let a call made from a non-last form be mistaken
+			// for a tail call and silently dropped.
+			top.Terminal = false
 			verifEv(env.Runtime.Stack, "iter", int(top.TailIterations), top.HeightLogical, "", verifBool(top.Terminal))
 			err := env.Runtime.Stack.CheckTailCall()
 			if err != nil {
